@@ -259,7 +259,7 @@ type scenario struct {
 }
 
 var terminators = []string{"peer-close", "stream-error", "handler-error", "deadline"}
-var forced = []string{"X1a", "X1b", "X2", "X3", "X4", "X5a", "X5b"}
+var forced = []string{"X1a", "X1b", "X2", "X3", "X4", "X5a", "X5b", "X6"}
 
 func run(c *core.Case) {
 	if c.Index < len(forced)*2 {
@@ -283,7 +283,9 @@ type world struct {
 	wireAtClose atomic.Int64 // bytes on the wire when the first Close call returned (-1: none yet)
 }
 
-func newWorld(c *core.Case, o sess.Opts) *world {
+func newWorld(c *core.Case, o sess.Opts) *world { return newWorldLoop(c, o, true) }
+
+func newWorldLoop(c *core.Case, o sess.Opts, withLoop bool) *world {
 	p, err := sess.NewPair(o)
 	if err != nil {
 		c.Inconclusive("cannot build session: %v", err)
@@ -334,11 +336,13 @@ func newWorld(c *core.Case, o sess.Opts) *world {
 		w.serveAt.Store(w.h.clock.Add(1))
 		w.serveCh <- err
 	}()
-	w.loop = sess.RunPeerLoop(p.Peer, func(n *xmltree.Node) {
-		if n.Name.Local == "iq" && (n.Attr("type") == "get" || n.Attr("type") == "set") {
-			p.Peer.Write([]byte(fmt.Sprintf("<iq type='result' id='%s'/>", n.Attr("id"))))
-		}
-	})
+	if withLoop {
+		w.loop = sess.RunPeerLoop(p.Peer, func(n *xmltree.Node) {
+			if n.Name.Local == "iq" && (n.Attr("type") == "get" || n.Attr("type") == "set") {
+				p.Peer.Write([]byte(fmt.Sprintf("<iq type='result' id='%s'/>", n.Attr("id"))))
+			}
+		})
+	}
 	return w
 }
 
@@ -475,7 +479,9 @@ func (w *world) finish(term string, smp *sample) {
 	}
 
 	w.p.Lib.Close()
-	<-w.loop.Done()
+	if w.loop != nil {
+		<-w.loop.Done()
+	}
 
 	// ---- byte monitor
 	wire := w.p.Lib.Written()
@@ -732,7 +738,93 @@ func runStress(c *core.Case) {
 }
 
 // runForced executes one forced ordering at the yield points.
+// runSyncTransport is scenario X6: a transport whose writes block until the
+// peer has read them (like net.Pipe) in both directions.  The application's
+// Close is waiting for the peer to read the closing tag; the peer, before it
+// reads, sends two more stanzas; Serve must go on reading them, or neither
+// side ever makes progress.
+func runSyncTransport(c *core.Case, s2s bool) {
+	smp := &sample{Kind: "X6", S2S: s2s, Terminator: "peer-close", Closers: 1}
+	c.Sample(smp)
+	w := newWorldLoop(c, sess.Opts{S2S: s2s}, false)
+	if w == nil {
+		return
+	}
+	p := w.p
+	// drain the library's stream header, then make both directions synchronous
+	buf := make([]byte, 4096)
+	p.Peer.SetReadDeadline(time.Now().Add(20 * time.Second))
+	if _, err := p.Peer.Read(buf); err != nil {
+		c.Inconclusive("X6: cannot read the library's header: %v", err)
+		return
+	}
+	p.Peer.SetReadDeadline(time.Time{})
+	p.Lib.SetSyncWrites(true)
+	p.Peer.SetSyncWrites(true)
+	closed := make(chan struct{})
+	go func() {
+		defer close(closed)
+		e := w.h.begin("closer1", "close", "")
+		var err error
+		c.Guard("Close", func() { err = p.S.Close() })
+		w.closed()
+		w.h.end(e, fmt.Sprint(err), "")
+	}()
+	deadline := time.Now().Add(20 * time.Second)
+	for p.Lib.BlockedWrites() == 0 && time.Now().Before(deadline) {
+		time.Sleep(time.Millisecond)
+	}
+	if p.Lib.BlockedWrites() == 0 {
+		c.Inconclusive("X6: Close never reached the transport")
+		p.Peer.Close()
+		p.Lib.Close()
+		return
+	}
+	c.Count("close_blocked_in_synchronous_write", 1)
+	// the peer sends two stanzas before it reads anything
+	peerDone := make(chan struct{})
+	var got []byte
+	go func() {
+		defer close(peerDone)
+		for k := 1; k <= 2; k++ {
+			if _, err := p.Peer.Write([]byte(fmt.Sprintf("<message id='sync%d'><body>%s</body></message>", k, strings.Repeat("x", 200)))); err != nil {
+				return
+			}
+		}
+		// now it reads: the closing tag
+		for !bytes.Contains(got, []byte(closeTag)) {
+			n, err := p.Peer.Read(buf)
+			got = append(got, buf[:n]...)
+			if err != nil {
+				return
+			}
+		}
+	}()
+	progress := func() int64 { return w.progress() + int64(len(p.Lib.Delivered())) }
+	if fin, quiet := stall.AwaitQuiet(peerDone, progress, 5*time.Second, 100*time.Second); !fin {
+		if ps := stall.Check(nil, 0); quiet && len(ps) > 0 {
+			c.Violate("close:sync-transport-deadlock:"+ps[0].Func, "Close is blocked writing the closing tag to a synchronous transport, the peer is blocked sending a stanza, and Serve does not read it: library goroutine parked in %s\n%s", ps[0].State, ps[0].Stack)
+		} else {
+			c.Inconclusive("X6: the peer did not finish (quiescent=%v)", quiet)
+		}
+		p.Peer.Close()
+		p.Lib.Close()
+		return
+	}
+	<-closed
+	p.Lib.SetSyncWrites(false)
+	p.Peer.SetSyncWrites(false)
+	c.Count("forced_scenarios", 1)
+	c.Count("synchronous_transport_closes", 1)
+	w.terminate("peer-close")
+	w.finish("peer-close", smp)
+}
+
 func runForced(c *core.Case, id string, s2s bool) {
+	if id == "X6" {
+		runSyncTransport(c, s2s)
+		return
+	}
 	smp := &sample{Kind: id, S2S: s2s}
 	c.Sample(smp)
 	ct := ctrl.New()
@@ -870,7 +962,7 @@ func Prop() *core.Prop {
 		ID:    "C10",
 		Level: core.Exploration,
 		Race:  true,
-		Rule:  "the first 14 cases are the forced scenarios X1a/X1b/X2/X3/X4 (orderings at the close.enter / senderr.enter yield points) and X5a/X5b (the transport fails, entirely or after 5 bytes, exactly on the write of the closing tag), each c2s and s2s; the rest are stress histories on one served session: 0-3 closers (1-3 Close calls each, sometimes SetCloseDeadline), 1-4 senders drawing from 13 transmit entry points, peer-injected IQs answered by the handler, and one terminator from {peer close tag, peer stream error, handler error, silence + 50 ms close deadline} issued early or after the actors; afterwards every entry point is called once more on the closed session. Oracles: closing-tag count and bytes after it on the peer side; porcupine check of the recorded history against a two-state closable-log model; marker-on-wire side conditions; State()/TokenReader after Serve; Serve's return per terminator. Distinct = (kind, terminator, closers, some transmit overlapped a Close?, some transmit began after a Close returned?, tags).",
+		Rule:  "the first 16 cases are the forced scenarios X1a/X1b/X2/X3/X4 (orderings at the close.enter / senderr.enter yield points) X5a/X5b (the transport fails, entirely or after 5 bytes, exactly on the write of the closing tag) and X6 (a transport with synchronous writes in both directions: Close blocked on the closing tag while the peer sends two more stanzas before reading), each c2s and s2s; the rest are stress histories on one served session: 0-3 closers (1-3 Close calls each, sometimes SetCloseDeadline), 1-4 senders drawing from 13 transmit entry points, peer-injected IQs answered by the handler, and one terminator from {peer close tag, peer stream error, handler error, silence + 50 ms close deadline} issued early or after the actors; afterwards every entry point is called once more on the closed session. Oracles: closing-tag count and bytes after it on the peer side; porcupine check of the recorded history against a two-state closable-log model; marker-on-wire side conditions; State()/TokenReader after Serve; Serve's return per terminator. Distinct = (kind, terminator, closers, some transmit overlapped a Close?, some transmit began after a Close returned?, tags).",
 		Assumptions: []string{
 			"a transmit that overlaps a Close in time may land on either side of the closing tag",
 			"handler replies are buffered until the handler returns, so their on-wire side condition is not demanded; their error value is",
@@ -884,7 +976,7 @@ func Prop() *core.Prop {
 			return len(forced)*2 + 70
 		},
 		Run: run,
-		Require: []string{"forced_scenarios", "stress_histories", "close_under_write_fault", "close_returns_with_wire_snapshot", "yield:close.enter", "yield:senderr.enter", "transmits_overlapping_a_close",
+		Require: []string{"forced_scenarios", "stress_histories", "close_under_write_fault", "close_returns_with_wire_snapshot", "synchronous_transport_closes", "yield:close.enter", "yield:senderr.enter", "transmits_overlapping_a_close",
 			"transmits_begun_after_a_close_returned", "late_transmits", "porcupine_checks",
 			"serve_returned:peer-close", "serve_returned:stream-error", "serve_returned:handler-error", "serve_returned:deadline"},
 		ReplayRepeats: 10,
